@@ -321,9 +321,9 @@ def r07i(ctx, rep, rule="R07i"):
     from ..shapes import dominating_guards
     facts, cg = ctx["facts"], ctx["cg"]
     rep.rule(rule, "collections happen only where everything live is rooted: run_gc is called by run_count (between instructions: "
-             "all live data hang off the registers and the stack) and by prepare_eval on the Err edge of compile_runnable only "
+             "all live data hang off the registers and the stack) and by prepare_eval: on the Err edge of compile_runnable "
              "(nothing of a failed compilation is needed any more; without that collection point a run of compile errors only "
-             "grows the heap). A collection after a *successful* compilation and before the entry procedure is installed in "
+             "grows the heap) and after the entry procedure was installed in %ip. A collection after a *successful* compilation and before the entry procedure is installed in "
              "%ip sweeps the program just compiled, which is referenced from a Rust local only.")
     if need(rep, rule, facts, RUN_GC) is None:
         return
@@ -355,13 +355,19 @@ def r07i(ctx, rep, rule="R07i"):
                 if src[0] == "call" and (callee(src[1]) or "").endswith("compile_runnable"):
                     on_err = True
         if not on_err:
-            bad.append(t)
+            # after a successful compilation: harmless once the entry procedure hangs off %ip (a root of run_gc)
+            ipw = [b2 for b2, j, s_ in f.stmts() if s_["lhs"]["l"] == 1 and
+                   [e.get("n") for e in s_["lhs"]["p"] if isinstance(e, dict)][:2] == ["ip", "0"]]
+            if not any(f.dominates(b2, bb) for b2 in ipw):
+                bad.append(t)
     if bad:
-        rep.fail(rule, key, "prepare_eval calls run_gc on a path where compilation succeeded: the freshly compiled entry procedure "
-                 "and its constants are referenced from a Rust local only, so the collection frees the program it is about to run",
+        rep.fail(rule, key, "prepare_eval calls run_gc on a path where compilation succeeded and %ip does not yet name the new entry "
+                 "procedure: the freshly compiled program and its constants are referenced from a Rust local only, so the "
+                 "collection frees the program it is about to run",
                  [bad[0]["loc"]])
     else:
-        rep.ok(rule, key, "prepare_eval collects only on the Err edge of compile_runnable", [gcs[0][1]["loc"]])
+        rep.ok(rule, key, "prepare_eval collects on the Err edge of compile_runnable, and after a successful compilation only once "
+               "the entry procedure is installed in %ip", [gcs[0][1]["loc"]])
 
 
 def r12l(ctx, rep, rule="R12l"):
@@ -891,3 +897,164 @@ def r07e(ctx, rep, rule="R07e"):
                                      "%s clears last_stacktrace before %s" % (short_path(path), short_path(first)) if ok else
                                      "%s can fail in %s without having cleared last_stacktrace: the caller sees the previous "
                                      "failure's trace next to the new error" % (short_path(path), short_path(first)), [fn.span])
+
+
+def _self_fields_read(facts, path, depth=3, _seen=None):
+    """names of the fields of `self` that `path` reads, following calls on the same receiver into local methods"""
+    from ..flow import fields_read_of_self, _fields_borrowed_of_self
+    _seen = _seen if _seen is not None else set()
+    f = facts.fns.get(path)
+    if f is None or path in _seen or depth < 0:
+        return set()
+    _seen.add(path)
+    out = fields_read_of_self(f) | _fields_borrowed_of_self(f)
+    for bb, t in f.calls():
+        c = callee(t)
+        if c in facts.fns and t["args"]:
+            o = f.origin(t["args"][0])
+            if (o[0] == "arg" and o[1] == 1) or (op_place(t["args"][0]) or {}).get("l") == 1:
+                out |= _self_fields_read(facts, c, depth - 1, _seen)
+    return out
+
+
+SIZED_KINDS = ("Vector", "String", "Continuation")
+
+
+def r12p(ctx, rep, rule="R12p"):
+    """the collection gate weighs what a cell holds outside the heap"""
+    from ..flow import Labels
+    facts, cg = ctx["facts"], ctx["cg"]
+    rep.rule(rule, "one cell, any size: a vector, a string and a continuation's saved stack each occupy a single heap cell however "
+             "large they are, so a gate that counts cells alone lets dead megabyte objects pile up until 75%% of the cells are "
+             "taken (thousands of them) — memory then follows the work done, not the live data. Necessary shape: (i) the condition "
+             "under which run_gc returns without collecting reads a Heap field that (ii) Heap::put and Heap::maybe_put update, "
+             "when they store a value in a fresh cell, with a number derived from that value; (iii) the function that derives it "
+             "gives each of %s a weight that is not a constant." % ", ".join(SIZED_KINDS))
+    gc = need(rep, rule, facts, RUN_GC)
+    if gc is None:
+        return
+    marks = [bb for bb, t in gc.calls() if (callee(t) or "").startswith(HEAP + "mark") or callee(t) == HEAP + "sweep"]
+    gate_calls = [(bb, t) for bb, t in gc.calls() if (callee(t) or "").startswith(HEAP) and callee(t) in facts.fns
+                  and not any(gc.dominates(m, bb) for m in marks) and not (callee(t) or "").startswith(HEAP + "mark")]
+    gate_fields = set()
+    for bb, t in gate_calls:
+        gate_fields |= _self_fields_read(facts, callee(t))
+    if not gate_calls:
+        rep.anchor_lost(rule, "the Heap queries in front of run_gc's early return")
+        return
+    rep.note("%s: run_gc's gate (%s) reads Heap.{%s}" % (rule, ", ".join(sorted({short_path(callee(t)) for _, t in gate_calls})),
+                                                       ", ".join(sorted(gate_fields))))
+    weighers = set()
+    for nm in ("put", "maybe_put"):
+        f = need(rep, rule, facts, HEAP + nm)
+        if f is None:
+            continue
+        lab = Labels(f, init={2: {"v"}})
+        W = {}
+        for bb, j, st in f.stmts():
+            lp = st["lhs"]
+            if lp["l"] == 1 and len(lp["p"]) >= 2 and lp["p"][0] == "*" and isinstance(lp["p"][1], dict) and "n" in lp["p"][1]:
+                ls = set()
+                for pr in places_read(st["rv"]):
+                    ls |= lab.of_place(pr)
+                if "v" in ls:
+                    W.setdefault(lp["p"][1]["n"], []).append(st["loc"])
+        for bb, t in f.calls():
+            c = callee(t)
+            if c in facts.fns and c.startswith("marwood::vm::heap::") and not c.startswith(HEAP) and \
+                    any("v" in a for a in lab.call_arg_labels(t, bb)):
+                weighers.add(c)
+        key = "%s|%s|weight-reaches-gate" % (rule, nm)
+        hit = sorted(set(W) & gate_fields)
+        (rep.ok if hit else rep.fail)(
+            rule, key, "Heap::%s adds a number derived from the stored value to Heap.%s, which run_gc's gate reads" % (nm, ", ".join(hit)) if hit else
+            "Heap::%s stores a value in a fresh cell without updating anything run_gc's gate reads (the gate reads Heap.{%s}; fields "
+            "updated from the value: {%s}): a dead vector, string or saved stack of any size counts as one cell, and thousands of "
+            "them are held before a collection is due" % (nm, ", ".join(sorted(gate_fields)), ", ".join(sorted(W))),
+            [l for h in hit for l in W[h]] or [f.span])
+    # (iii) per-kind weights
+    n = 0
+    for w in sorted(weighers):
+        f = facts.fns[w]
+        sws = [sw for sw in disc_switches(facts, f, "marwood::vm::vcell::VCell")]
+        if not sws:
+            continue
+        sw = sws[0]
+        for kind in SIZED_KINDS:
+            n += 1
+            key = "%s|%s|%s" % (rule, f.short.rsplit("::", 1)[-1], kind)
+            region = arm_region(f, sw, kind)
+            vals = []
+            for bb, j, st in f.stmts():
+                if bb in region and st["lhs"]["l"] == 0 and not st["lhs"]["p"]:
+                    vals.append(f.origin(st["rv"]["a"]) if st["rv"]["k"] == "use" else ("rv", st))
+            for bb, t in f.calls():
+                if bb in region and t["dest"]["l"] == 0 and not t["dest"]["p"]:
+                    vals.append(("call", t))
+            ok = bool(vals) and not all(v[0] == "const" for v in vals)
+            (rep.ok if ok else rep.fail)(
+                rule, key, "a %s is weighed by a number taken from it" % kind if ok else
+                "%s gives a %s no weight of its own (%s): dead objects of that kind, however large, do not bring a collection nearer" % (
+                    f.short, kind, "the arm returns a constant" if vals else "it has no arm of its own"), [sw["term"]["loc"]])
+    rep.floor(rule, "sized kinds weighed", n, len(SIZED_KINDS))
+
+
+def r12q(ctx, rep, rule="R12q"):
+    """the gate is consulted between any two instructions"""
+    facts = ctx["facts"]
+    rep.rule(rule, "no instruction runs unwatched: a single instruction can allocate without bound (make-vector, make-string, "
+             "call/cc, vector->list), so the dispatch loop of run_count consults the collector before every instruction — a call "
+             "of run_gc, or of one of the Heap queries run_gc's own gate uses, dominates the run_one call inside the loop. A check "
+             "made only every N cycles lets N such allocations through whatever the gate would have said.")
+    f = need(rep, rule, facts, RUN_COUNT)
+    gc = need(rep, rule, facts, RUN_GC)
+    if f is None or gc is None:
+        return
+    marks = [bb for bb, t in gc.calls() if (callee(t) or "").startswith(HEAP + "mark") or callee(t) == HEAP + "sweep"]
+    gate = {callee(t) for bb, t in gc.calls() if (callee(t) or "").startswith(HEAP) and not any(gc.dominates(m, bb) for m in marks)
+            and not (callee(t) or "").startswith(HEAP + "mark")}
+    ones = [bb for bb, t in f.calls() if callee(t) == RUN_ONE]
+    if not ones:
+        rep.anchor_lost(rule, "run_one call in run_count")
+        return
+    loops = [(h, (f.reach_from(h) & f.reach_back(src)) | {h, src}) for src, h in f.back_edges()]
+    body = set().union(*[b for h, b in loops if ones[0] in b]) if loops else set()
+    if not body:
+        rep.anchor_lost(rule, "dispatch loop of run_count")
+        return
+    checks = [bb for bb, t in f.calls() if bb in body and (callee(t) == RUN_GC or callee(t) in gate)]
+    ok = any(f.dominates(c, ones[0]) and c != ones[0] for c in checks)
+    key = rule + "|run_count|gate-before-every-instruction"
+    (rep.ok if ok else rep.fail)(
+        rule, key, "the dispatch loop consults the collection gate before every run_one" if ok else
+        "in run_count no call of run_gc or of its gate (%s) dominates run_one inside the dispatch loop: the collector is consulted "
+        "only on some cycles, and every allocation made in between is held whatever its size" % ", ".join(sorted(short_path(g) for g in gate)),
+        [f.blocks[ones[0]]["term"]["loc"]])
+
+
+def r12r(ctx, rep, rule="R12r"):
+    """every way out of prepare_eval is a collection point"""
+    facts = ctx["facts"]
+    rep.rule(rule, "preparing is allocating: prepare_eval expands macros and compiles, which allocates cells, whether or not the "
+             "procedure it installs is ever run. Every return of prepare_eval — the success return included — is therefore reached "
+             "only through a call of run_gc; an embedder that prepares evaluations and abandons them (the sliced API allows it) "
+             "otherwise grows the heap by one compiled program per call with nothing live.")
+    f = need(rep, rule, facts, PREPARE)
+    if f is None:
+        return
+    gcs = {bb for bb, t in f.calls() if callee(t) == RUN_GC}
+    rets = [bb for bb in f.return_blocks() if bb in f.reachable()]
+    comp = [t for bb, t in f.calls() if (callee(t) or "").endswith("compile_runnable")]
+    if not comp or comp[0].get("target") is None or not rets:
+        rep.anchor_lost(rule, "compile_runnable call / return of prepare_eval")
+        return
+    free = f.reach_from(comp[0]["target"], avoid=gcs)
+    bad = [b for b in rets if b in free]
+    key = rule + "|prepare_eval|collects-on-every-exit"
+    if not bad:
+        rep.ok(rule, key, "every path from the compilation to a return of prepare_eval passes run_gc", [f.span])
+    else:
+        # name the kind of exit: does the path write ip (success) ?
+        rep.fail(rule, key, "prepare_eval can return after compiling without passing a collection point: what macro expansion and "
+                 "compilation allocated for an evaluation that is then never run is not reclaimed, and a sequence of such calls grows "
+                 "the heap without bound while nothing is live", [f.blocks[b]["term"].get("loc") or f.span for b in bad][:2] or [f.span])
